@@ -70,3 +70,47 @@ theorem esc_noquote (E : Ent) : ∀ (s : List B) (inTag : Bool), (∀ b ∈ s, b
     simp [h1, h2, esc_noquote E rest _ hr]
 
 end Gomjml.Amp
+
+namespace Gomjml.Amp
+
+/-- `&amp;` is an entity the scanner leaves alone (given that `amp` is a valid entity name) -/
+theorem entityAhead_amp (E : Ent) (hE : E.valid [97, 109, 112] = true) (rest : List B) :
+    entityAhead E (97 :: 109 :: 112 :: semi :: rest) = true := by
+  simp [entityAhead, isTerm, semi, amp, dq, sq, lt, gt, List.takeWhile, List.dropWhile, hE]
+
+/-- inside a quoted value an ordinary byte (not the quote, not `&`) is copied -/
+theorem esc_copy (E : Ent) (inTag : Bool) (q b : B) (rest : List B) (hq : (q != 0) = true) (hbq : (b == q) = false) (hba : (b == amp) = false) :
+    esc E inTag q (b :: rest) = b :: esc E inTag q rest := by
+  rw [esc]; simp [hq, hbq, hba]
+
+/-- … and at an `&` the look-ahead decides -/
+theorem esc_at_amp (E : Ent) (inTag : Bool) (q : B) (rest : List B) (hq : (q != 0) = true) (haq : (amp == q) = false) :
+    esc E inTag q (amp :: rest) = (if entityAhead E rest then [amp] else ampEsc) ++ esc E inTag q rest := by
+  rw [esc]; simp [hq, haq]
+
+/-- `&amp;` itself is left exactly as written -/
+theorem esc_amp_entity (E : Ent) (hE : E.valid [97, 109, 112] = true) (inTag : Bool) (q : B) (hq : q = dq ∨ q = sq) (rest : List B) :
+    esc E inTag q (ampEsc ++ rest) = ampEsc ++ esc E inTag q rest := by
+  have hamp := entityAhead_amp E hE rest
+  have hq0 : (q != 0) = true := by rcases hq with rfl | rfl <;> decide
+  have haq : (amp == q) = false := by rcases hq with rfl | rfl <;> decide
+  have c1 : ((97 : B) == q) = false := by rcases hq with rfl | rfl <;> decide
+  have c2 : ((109 : B) == q) = false := by rcases hq with rfl | rfl <;> decide
+  have c3 : ((112 : B) == q) = false := by rcases hq with rfl | rfl <;> decide
+  have c4 : (semi == q) = false := by rcases hq with rfl | rfl <;> decide
+  show esc E inTag q (amp :: 97 :: 109 :: 112 :: semi :: rest) = amp :: 97 :: 109 :: 112 :: semi :: esc E inTag q rest
+  rw [esc_at_amp E inTag q _ hq0 haq, hamp, esc_copy E inTag q 97 _ hq0 c1 (by decide), esc_copy E inTag q 109 _ hq0 c2 (by decide),
+    esc_copy E inTag q 112 _ hq0 c3 (by decide), esc_copy E inTag q semi _ hq0 c4 (by decide)]
+  rfl
+
+/-- **a bare ampersand in an attribute value is read like `&amp;`**: inside a quoted value (either kind of quote), at a place
+    where no entity follows, the scanner's output for `&…` and for `&amp;…` is the same — byte for byte, whatever comes after -/
+theorem esc_bare_amp (E : Ent) (hE : E.valid [97, 109, 112] = true) (inTag : Bool) (q : B) (hq : q = dq ∨ q = sq)
+    (rest : List B) (h : entityAhead E rest = false) :
+    esc E inTag q (amp :: rest) = esc E inTag q (ampEsc ++ rest) := by
+  have hq0 : (q != 0) = true := by rcases hq with rfl | rfl <;> decide
+  have haq : (amp == q) = false := by rcases hq with rfl | rfl <;> decide
+  rw [esc_amp_entity E hE inTag q hq rest, esc_at_amp E inTag q rest hq0 haq, h]
+  rfl
+
+end Gomjml.Amp
